@@ -365,3 +365,4 @@ def run(ctx):
     ctx.run_rule('C07.4a', 'T2', 'compilation phases run only through apply/apply_unsafe on the no-errors edge', gating.r_phase_gating, prog)
     ctx.run_rule('C07.4b', 'T1', 'has_errors() inspects kind, not level', r_has_errors_reads_kind, prog)
     ctx.run_rule('C07.4c', 'T1', 'level Error is carried exactly by Error kinds (exit status and gating agree)', levels.r_level_error_only_for_error_kind, prog)
+    ctx.run_rule('C07.4d', 'T1', 'the level of an error cannot be lowered: level is rewritten only inside the Lint arm of into_updated (an allowed error would exit 0)', levels.r_level_writers, prog)
